@@ -34,6 +34,7 @@ def check(ctx, tier):
     registry(ctx, tk)
     from .. import hazards as _hz, scopes as _sc
     _hz.generic(ctx, tk, "C16.z", _sc.scope(tk, "C16", depth=1))
+    _hz.h27_positional_arguments_dropped(ctx, tk, "C16.z/H27", [f_ for f_ in (ctx.program.funcs.get(q_) for q_ in ['runlengtharray.get_ra_func']) if f_ is not None])
     return {}
 
 
@@ -56,6 +57,18 @@ def ufunc_branches(ctx, tk, f, rule, values_attr, geom_attr):
             ok = (attr_chain(args[0]) or ("",))[-1] == values_attr
             ctx.decide(rule, f, "a unary ufunc is applied to the run values", True if ok else None, node=c.node, key="unary", engine="E4")
             continue
+        if len(args) == 2 and which is None:
+            # no test tells which operand is the scalar: then the operand that is not the array must still come from a fixed
+            # position of the inputs; an element picked by kind ([i for i in inputs if isinstance(i, Number)][0]) has lost it
+            others = [a for a in args if not ((attr_chain(a) or ("",))[-1] == values_attr and (attr_chain(a) or ("",))[0] == selfn)]
+            arr = [a for a in args if a not in others]
+            if len(others) == 1 and len(arr) == 1 and any(x.k == "param" and x.a[0] == inp for x in walk(others[0])):
+                o = others[0]
+                fixed = o.k == "sub" and o.a[0].k == "param" and o.a[0].a[0] == inp and o.a[1].k == "const"
+                if not fixed and any(x.k in ("comp", "elem") for x in walk(o)):
+                    ctx.violated(rule, f, "the ufunc receives the scalar and the array in the order the caller gave them",
+                                 "`%s` always puts the run values %s and a scalar selected by its kind %s: for a scalar on the other side (10 - rla, 2 ** rla) the operands are swapped" % (
+                                     c, "first" if args[0] is arr[0] else "second", "second" if args[0] is arr[0] else "first"), node=c.node, key="scalar-order", engine="E4")
         if len(args) != 2 or which is None:
             continue
         seen.add(which)
@@ -160,6 +173,12 @@ def reductions(ctx, tk):
             full = (np_call(tm, {npf}) and tm.a[1] and (attr_chain(tm.a[1][0]) or ("",))[-1] == "_values") or \
                 (tm.k == "call" and tm.a[0].k == "attr" and tm.a[0].a[1] == npf and (attr_chain(tm.a[0].a[0]) or ("",))[-1] == "_values")
             const = all(a.k == "const" or (a.k == "call" and a.a[1] and all(y.k == "const" for y in a.a[1])) for a in alts(tm))
+            extremum = any(x.k == "cmp" and any(y.k == "call" and (attr_chain(y.a[0]) or ("",))[-1] in ("min", "max", "amin", "amax") for y in (x.a[1], x.a[2])) for a in alts(tm) for x in walk(a))
+            if extremum and not full:
+                ctx.violated("C16.d", g, "%s is decided from the truth value of every run value" % name,
+                             "`%s` decides %s() from an extremum compared with 0: with negative values the smallest value is not the zero (all([-3, 0, 4]) is False, min != 0 is True)" % (
+                                 ast.unparse(r.ast), name), node=r.ast, key="extremum:" + name, engine="KB")
+                continue
             ctx.decide("C16.d", g, "%s is decided from all run values on every path" % name, True if full else (False if const else None),
                        "`%s` is returned without looking at the values: adjacent runs may hold equal values (results of scalar ufuncs and concatenation are not joined)" % ast.unparse(r.ast),
                        node=r.ast, engine="E6")
